@@ -2,6 +2,7 @@
 import itertools
 import re
 import common as C
+import gen_buffer
 
 PROPERTIES = ["C08"]
 MANIFEST = {
@@ -69,10 +70,33 @@ MANIFEST = {
         "design_ref": "DESIGN.md 3/C08",
     }
 }
-PROPS = ["Nstd.Buffer.Props", "Nstd.Buffer.PropsBacklog", "Nstd.Buffer.PropsRaw", "Nstd.Buffer.PropsClient"]
+PROPS = ["Nstd.Buffer.Props", "Nstd.Buffer.PropsBacklog", "Nstd.Buffer.PropsRaw", "Nstd.Buffer.PropsClient", "Nstd.Buffer.PropsTr"]
 LEAN_TARGETS = PROPS + ["drv_buffer"]
 DRIVER = "drv_buffer"
 REGLEN = [8, 5]
+GEN_OUT = C.LEAN / "Nstd" / "Generated" / "BufferBody.lean"
+
+
+def gen(ctx):
+    """(ok, message): the method bodies of the CURRENT include/nstd/Buffer.hpp -> lean/Nstd/Generated/BufferBody.lean
+    (tools/gen_buffer.py); a body outside the understood C++ subset is refused = broken tie"""
+    try:
+        gen_buffer.main(C.REPO, GEN_OUT)
+        ok, msg = True, "Buffer.hpp method bodies translated: " + ", ".join(m[0] for m in gen_buffer.METHODS)
+    except gen_buffer.Refuse as e:
+        ok, msg = False, "tools/gen_buffer.py refuses the current Buffer.hpp (broken tie): " + str(e)
+    except OSError as e:
+        ok, msg = False, "tools/gen_buffer.py: " + str(e)
+    if ctx is not None:
+        ctx.cov.setdefault("translated", msg)
+    return ok, msg
+
+
+def setup():
+    """tools/setup.py: the generated Lean file must exist before `lake build`"""
+    ok, msg = gen(None)
+    if not ok:
+        print("buffer:", msg)
 REGBASE = [0x10, 0x20]
 
 
@@ -955,7 +979,7 @@ def check(ctx):
         "data arguments given by (pointer, size) are outside the buffer's block, a sub-range of its own exposed bytes, or any sub-range of its own allocation / attached range (all proved); a range that straddles the end of the allocation is a fault of the model",
         "allocation never fails",
     ]
-    proof_ok = C.proof_stage(ctx, PROPS, [DRIVER], leanchecker=(ctx.tier == "thorough"))
+    proof_ok = C.proof_stage(ctx, PROPS, [DRIVER], gen=gen, leanchecker=(ctx.tier == "thorough"))
     harness = C.build_harness(ctx, "buffer", ["buffer.cpp", C.REPO / "src/Memory.cpp"])
     if harness is None or not C.driver_path(DRIVER).exists():
         return
